@@ -92,6 +92,12 @@ def drive(ctx, binary, cases, picks, timeout_ms=2000):
     slow = sorted(recs, key=lambda r: -(r["ms"] - r["lock_ms"]))[:6]
     log("driver: %d cases in %.1fs; slowest: %s" % (len(recs), time.time() - t0, [
         (r["ms"] - r["lock_ms"], r["mode"], r["addr"], r["dial_addr"], r["tries"]) for r in slow]))
+    agg = {}
+    for r in recs:
+        k = (r["mode"], r["addr"].split(":")[0])
+        n, t = agg.get(k, (0, 0))
+        agg[k] = (n + 1, t + r["ms"] - r["lock_ms"])
+    log("driver mean ms per case: %s" % {"%s/%s" % k: round(t / n) for k, (n, t) in sorted(agg.items())})
     return jc, recs
 
 
